@@ -20,12 +20,17 @@ structure Seg where
   liveSize : Int
 deriving DecidableEq, Repr, Inhabited
 
-/-- the integer fields of `mergeplan.Options` -/
+/-- the integer fields of `mergeplan.Options`, and which variant of the roster loop /repo has:
+`skipNoop = false` is the code as pinned (`if len(roster) > 0` before a roster is scored); `true` is the same
+code with the guard of /verif/work/C19/fix-noop-singleton-rosters.diff (a roster of one segment without
+deletions is not a candidate). Which one /repo is, is read off the source on every run
+(`BlugeGen.C19.skipNoop`); the driver sets the field from it. -/
 structure Options where
   maxSegmentsPerTier : Int
   maxSegmentSize : Int
   segmentsPerMergeTask : Int
   floorSegmentSize : Int
+  skipNoop : Bool
 deriving DecidableEq, Repr, Inhabited
 
 /-- the float fields of `mergeplan.Options` (only the default scorer / budget read them) -/
@@ -34,7 +39,7 @@ structure FOptions where
   reclaimDeletesWeight : Float
 
 /-- `DefaultMergePlanOptions` -/
-def defaultOptions : Options := ⟨10, 5000000, 10, 2000⟩
+def defaultOptions : Options := ⟨10, 5000000, 10, 2000, false⟩
 
 /-! ## sort.go : byLiveSizeDescending -/
 
@@ -101,6 +106,16 @@ def buildRoster (o : Options) : List Seg → Nat → Int → List Seg
       else buildRoster o rest n rosterLive
     else []
 
+/-- the guard in front of `rosterScore := scoreSegments(roster, o)`: pinned `len(roster) > 0`; repaired
+`len(roster) > 1 || (len(roster) == 1 && roster[0].LiveSize() < roster[0].FullSize())` -/
+def rosterOk (o : Options) (roster : List Seg) : Bool :=
+  if o.skipNoop then
+    decide (roster.length > 1) ||
+      (match roster with
+       | [s] => decide (s.liveSize < s.fullSize)
+       | _ => false)
+  else decide (roster.length > 0)
+
 /-- the loop over `startIdx`; the state `(bestRoster, bestRosterScore)` is `none` while
 `len(bestRoster) == 0` -/
 def pickBest {σ : Type} (o : Options) (score : List Seg → σ) (lt : σ → σ → Bool) :
@@ -109,13 +124,32 @@ def pickBest {σ : Type} (o : Options) (score : List Seg → σ) (lt : σ → σ
   | e :: rest, best =>
     let roster := buildRoster o (e :: rest) 0 0
     let best' :=
-      if roster.length > 0 then
+      if rosterOk o roster then
         let rosterScore := score roster
         match best with
         | none => some (roster, rosterScore)
         | some (b, bs) => if lt rosterScore bs then some (roster, rosterScore) else some (b, bs)
       else best
     pickBest o score lt rest best'
+
+/-- `pickBest` with the part of the eligible list behind the start indices still to visit made explicit:
+the start indices are the positions of `starts`, the roster of a start index is built from the suffix
+`starts[i:] ++ tail`. `pickBest o score lt l best = pickBestCtx o score lt l [] best`
+(`BlugeProofs.C19.pickBest_eq_ctx`); it splits over `++` (`pickBestCtx_append`), which is what
+`noop_singleton_iff` needs to talk about "the best roster before the last start index". -/
+def pickBestCtx {σ : Type} (o : Options) (score : List Seg → σ) (lt : σ → σ → Bool) :
+    List Seg → List Seg → Option (List Seg × σ) → Option (List Seg × σ)
+  | [], _, best => best
+  | e :: rest, tail, best =>
+    let roster := buildRoster o (e :: rest ++ tail) 0 0
+    let best' :=
+      if rosterOk o roster then
+        let rosterScore := score roster
+        match best with
+        | none => some (roster, rosterScore)
+        | some (b, bs) => if lt rosterScore bs then some (roster, rosterScore) else some (b, bs)
+      else best
+    pickBestCtx o score lt rest tail best'
 
 /-- the budget loop `for len(eligibles) > 0 && (len(eligibles)+len(rv.Tasks)) > budgetNumSegments`;
 returns the tasks appended by the loop. `nTasks` is `len(rv.Tasks)`. `fuel` bounds the number of
@@ -222,6 +256,39 @@ def tiersNeeded (per g first total : Nat) : Nat → Nat → Option Nat
   | 0, _ => none
   | fuel + 1, k => if total < per * first * g ^ k then some k else tiersNeeded per g first total fuel (k + 1)
 
+/-! ## the exact budget staircase for a rational growth factor `num/den`
+
+`CalcBudget` over ℕ with `tierSize = int64(float64(tierSize) * tierGrowth)` read as `⌊tier·num/den⌋`
+(Go's conversion truncates; everything is positive). For `den = 1` this is `calcBudgetNat`
+(`BlugeProofs.C19.calcBudgetRat_den_one`). It is what the real function computes whenever the float
+operations involved are exact: `growth = num/den` is the exact value of the `float64` (every finite
+`float64` is such a fraction with `den` a power of two), `tier·num < 2^53` for every tier reached
+(the product is then computed without rounding), `total, tier < 2^45` and `per < 2^8` (then the rounded
+quotient `float64(total)/float64(tier)` is `< per` exactly when `total < per·tier`, and its ceiling is the
+exact one). The harness decides these side conditions in integer arithmetic and, when they hold, prints
+the real `CalcBudget` result in the field the driver fills with `calcBudgetRat` — so every such line is a
+direct comparison of this definition with the real function. Outside the side conditions (a growth factor
+with a 53-bit mantissa such as `3.3`, tiers beyond 2^45) the float computation rounds, the staircase is
+only approximately `⌊tier·g⌋`, and nothing is claimed about it beyond the bit-for-bit transcription
+`calcBudgetF`. -/
+def calcBudgetRat (per num den : Nat) : Nat → Nat → Nat → Nat
+  | 0, _, _ => 0
+  | fuel + 1, total, tier =>
+    if total = 0 then 0
+    else if total < per * tier then (total + tier - 1) / tier
+    else per + calcBudgetRat per num den fuel (total - per * tier) (tier * num / den)
+
+/-- smallest `k ≤ fuel` with `total·hd^k < per·first·hn^k`, i.e. `⌈log_{hn/hd}(total/(per·first))⌉` -/
+def tiersNeededRat (per hn hd first total : Nat) : Nat → Nat → Option Nat
+  | 0, _ => none
+  | fuel + 1, k =>
+    if total * hd ^ k < per * first * hn ^ k then some k else tiersNeededRat per hn hd first total fuel (k + 1)
+
+/-- the decidable side condition of `budget_logarithmic_rat`: from tier size `first` on, one step of the
+staircase multiplies the tier by at least `hn/hd ≥ 1` in spite of the truncation -/
+def growthAtLeast (num den hn hd first : Nat) : Bool :=
+  decide (0 < den ∧ 0 < hd ∧ hd ≤ hn ∧ hn * den ≤ num * hd ∧ hd * (den - 1) ≤ first * (num * hd - hn * den))
+
 /-! ## specification side -/
 
 /-- executing a merge task on sizes only: the task's segments disappear; unless nothing is live, one
@@ -247,6 +314,69 @@ def isNoopSingleton (t : List Seg) : Bool :=
   match t with
   | [s] => decide (s.liveSize > 0 ∧ s.liveSize = s.fullSize)
   | _ => false
+
+/-- a plan that only rewrites deletion-free segments one by one (and is not empty) -/
+def allNoop (tasks : List (List Seg)) : Bool := !tasks.isEmpty && tasks.all isNoopSingleton
+
+/-- options for which plan/execute histories are generated and judged: the well-formedness options with
+`SegmentsPerMergeTask ≥ 2` (with 1 the roster loop can only propose one-segment rewrites: no merge ever
+happens, `BlugeProofs.C19.spmt_one_never_merges`) -/
+def histOptionsSane (o : Options) : Bool := optionsSane o && decide (2 ≤ o.segmentsPerMergeTask)
+
+/-! ### plan/execute histories on sizes (no further arrivals) -/
+
+/-- the tasks the merger executes: `planMergeAtSnapshot` does nothing when `Plan` returns `nil` -/
+def planOf {σ : Type} (o : Options) (calcBudget : Int → Int → Int) (score : List Seg → σ)
+    (lt : σ → σ → Bool) (segs : List Seg) : List (List Seg) :=
+  (plan o calcBudget score lt segs).getD []
+
+/-- `planMergeAtSnapshot`: the tasks are executed one after the other ("process tasks in serial for now");
+every task takes a fresh segment id (`atomic.AddUint64(&s.nextSegmentID, 1)`), also when nothing is merged -/
+def executeAll : Nat → List Seg → List (List Seg) → List Seg
+  | _, segs, [] => segs
+  | next, segs, t :: ts => executeAll (next + 1) (executeTask next segs t) ts
+
+structure HState where
+  next : Nat
+  segs : List Seg
+deriving Repr, DecidableEq
+
+/-- one planning round of the merger on a state without arrivals -/
+def round {σ : Type} (o : Options) (calcBudget : Int → Int → Int) (score : List Seg → σ)
+    (lt : σ → σ → Bool) (st : HState) : HState :=
+  let ts := planOf o calcBudget score lt st.segs
+  ⟨st.next + ts.length, executeAll st.next st.segs ts⟩
+
+def rounds {σ : Type} (o : Options) (calcBudget : Int → Int → Int) (score : List Seg → σ)
+    (lt : σ → σ → Bool) : Nat → HState → HState
+  | 0, st => st
+  | k + 1, st => rounds o calcBudget score lt k (round o calcBudget score lt st)
+
+/-- ids come from a counter: every id in use is below the next one -/
+def freshIds (st : HState) : Bool := st.segs.all fun s => decide (s.id < st.next)
+
+/-! ### the concrete input of the finding `plan-only-noop-singletons`
+
+`MaxSegmentsPerTier = 1`, `TierGrowth = 100`, everything else as in `DefaultMergePlanOptions`; three
+deletion-free segments of 362321, 42807 and 5041 documents. `livelockScores` are the values the real
+`ScoreSegments` returns for the six rosters the roster loop can build from them (as `float64` bit
+patterns: all positive, so `<` on the patterns is `<` on the floats); the harness line `witness` prints
+the real values and the driver answers with this table, so a change of the scorer shows up as a broken
+correspondence. -/
+def livelockOptions : Options := ⟨1, 5000000, 10, 2000, false⟩
+def livelockSegs : List Seg := [⟨1, 362321, 362321⟩, ⟨2, 42807, 42807⟩, ⟨3, 5041, 5041⟩]
+def livelockScores : List (List Int × Nat) := [
+  ([362321, 42807, 5041], 0x3ffaf89a91bdc621),  -- 1.6856942837733941
+  ([42807, 5041], 0x3ff888a4ba6cf1c8),          -- 1.5333602220772367
+  ([5041], 0x3ff88126cf12f566),                 -- 1.531531151659999
+  ([362321, 42807], 0x3ffb4a3258d2556d),        -- 1.7056144208521247
+  ([42807], 0x3ffb454a46b63d0a),                -- 1.7044165384466532
+  ([362321], 0x3ffe5818c172bdf5)]               -- 1.8965079838343375
+
+def lookupScore (table : List (List Int × Nat)) (r : List Seg) : Nat :=
+  match table.find? (fun e => e.1 == r.map (·.liveSize)) with
+  | some e => e.2
+  | none => 0
 
 def taskSubset (segs : List Seg) (tasks : List (List Seg)) : Bool :=
   tasks.all fun t => t.all fun s => segs.contains s
